@@ -19,9 +19,10 @@ EXPLANATION = (
     'right operand (positive control: VDB); (C20.4) the XIRR/XNPV length-mismatch guard dominates the computation '
     'and gives #NUM!, non-convergence is converted to #NUM!; (C20.5) XNPV discounts by (1+rate)^((d_i-d_0)/365), '
     'SLN = (cost-salvage)/life; (C20.6) NPV on witness flows incl. zero flows first, in the middle and last, and '
-    'SLN, as the evaluator calls them: a zero flow occupies a period.')
+    'SLN, as the evaluator calls them: a zero flow occupies a period.'
+    " (C20.7) a witness workbook: XNPV equals its closed form, is linear in the flows and a plain sum at rate 0, XIRR returns the root of the closed form (scipy's secant iteration modelled by its documented algorithm) - dates as serials around 60, fractional serials and dates built by DATE.")
 NOT_DECIDED = 'the defining equations as numeric identities, root properties, linearity'
-TRUSTED = ['numpy_financial.pv/pmt/irr parameter conventions', 'scipy.optimize.newton signature']
+TRUSTED = ['numpy_financial.pv/pmt/irr parameter conventions', 'scipy.optimize.newton signature', 'workbook scenarios: pandas storage of range arrays as row-major rows, numpy on Python numbers (IEEE results, 64-bit integer wrap), dateutil.parser.parse rejecting texts that are no dates, openpyxl address arithmetic, inspect.signature built from the FunctionDef', "scipy.optimize.newton without derivative = the library's secant iteration", 'pandas DataFrame from a dict of lists: column access, boolean-mask rows, stable sort_values']
 
 FUNCS = ('IRR', 'NPV', 'PMT', 'PV', 'SLN', 'XIRR', 'XNPV')
 PARAM_EXCEPTIONS = {
